@@ -6,6 +6,7 @@ import (
 	"fmt"
 	"io"
 	"reflect"
+	"strings"
 	"testing"
 
 	fj "github.com/evanphx/json-patch/v5/internal/json"
@@ -46,8 +47,16 @@ func (r *chunkReader) Read(p []byte) (int, error) {
 
 func drawStream(t *rapid.T) StreamCase {
 	n := gen.Uniform(t, 0, 4, "nvals")
+	long := gen.OneIn(t, 6, "long")
+	if long {
+		// streams well beyond the decoder's initial 512-byte buffer (refills, buffer growth)
+		n = gen.Uniform(t, 5, 60, "nvalslong")
+	}
 	var buf bytes.Buffer
 	for i := 0; i < n; i++ {
+		if long && gen.OneIn(t, 8, "gap") {
+			buf.WriteString(strings.Repeat(rapid.SampledFrom([]string{" ", "\n", " \t"}).Draw(t, "gapc"), rapid.SampledFrom([]int{100, 511, 512, 513, 1500, 4096}).Draw(t, "gapn")))
+		}
 		v := richCfg.Value(3).Draw(t, "v")
 		if gen.OneIn(t, 3, "spell") {
 			buf.WriteString(gen.Spell(t, v, "sp"))
